@@ -516,7 +516,10 @@ def pred_truth(e, elem, key, cmp_names, o):
     if k == "call" and len(e["a"]) == 2:
         f = e["f"]
         fname = f.get("n")
-        if fname in cmp_names or (f.get("k") in ("construct", "cast") and any(c in f.get("ty", "") for c in cmp_names)):
+        f0 = astx.strip_casts(f)
+        via_getter = f0 is not None and f0.get("k") == "call" and not f0.get("a") and \
+            astx.callee(f0)[0] in ("key_comp", "value_comp")           # key_comp()(a, b)
+        if via_getter or fname in cmp_names or (f.get("k") in ("construct", "cast") and any(c in f.get("ty", "") for c in cmp_names)):
             a, b = side(e["a"][0]), side(e["a"][1])
             if a and b and a != b:
                 return (o == "<") if a == "E" else (o == ">")
